@@ -126,7 +126,7 @@ func (k Keeper) PlaceDutchAuctionBid(ctx sdk.Context, auctionID uint64, bidder s
 			keeperIncentive := (liquidationWhitelistingAppData.KeeeperIncentive.Mul(sdk.NewDecFromInt(liquidationPenalty.Amount))).TruncateInt()
 			if keeperIncentive.GT(sdk.ZeroInt()) {
 				liquidationPenalty = liquidationPenalty.Sub(sdk.NewCoin(auctionData.DebtToken.Denom, keeperIncentive))
-				addr, _ := sdk.AccAddressFromBech32(liquidationData.InternalKeeperAddress)
+				addr, _ := sdk.AccAddressFromBech32(liquidationData.ExternalKeeperAddress)
 				err = k.bankKeeper.SendCoinsFromModuleToAccount(ctx, auctionsV2types.ModuleName, addr, sdk.NewCoins(sdk.NewCoin(auctionData.DebtToken.Denom, keeperIncentive)))
 				if err != nil {
 					return bidId, err
